@@ -271,6 +271,18 @@ impl Monitor for C11 {
         if !ev.out.ok {
             return out;
         }
+        // what a reward index denotes never changes once it is initialised: the amounts positions are owed at that index were
+        // emitted in that mint and are paid from that vault
+        for m in ev.tx.ixs.iter().flat_map(|i| i.accounts.iter()) {
+            if let (Some(a), Some(b)) = (ev.pre.get(&m.pubkey).filter(|a| a.owner == crate::ix::wp()).and_then(|a| decode::pool(&a.data)), ev.post.get(&m.pubkey).filter(|a| a.owner == crate::ix::wp()).and_then(|a| decode::pool(&a.data))) {
+                for i in 0..3 {
+                    if a.rewards[i].initialized() && (a.rewards[i].mint != b.rewards[i].mint || a.rewards[i].vault != b.rewards[i].vault) {
+                        out.push(viol("initialised_reward_slot_rebound", ev.idx, format!("after {} reward {} of pool {} pays mint {} from vault {} (before: mint {} vault {}); what positions are owed at that index was emitted in the old mint", ev.tag, i, m.pubkey, b.rewards[i].mint, b.rewards[i].vault, a.rewards[i].mint, a.rewards[i].vault)));
+                        return out;
+                    }
+                }
+            }
+        }
         for v in ev.ix_views() {
             let Some(c) = wpix::decode(v.ix) else { continue };
             // 1. accrual intervals of every pool the instruction touched
